@@ -814,17 +814,10 @@ func integer(sign int64, s string) (Integer, error) {
 }
 
 func float(sign float64, s string) (Float, error) {
-	bf, _, err := big.ParseFloat(s, 10, 0, big.ToZero)
-	if err != nil {
-		// The exponent is beyond what big.Float represents. strconv saturates such literals to 0 or Inf,
-		// which is what smaller out-of-range exponents like 1.0e400 or 1.0e-400 yield below.
-		f, _ := strconv.ParseFloat(s, 64)
-		return Float(sign * f), nil
-	}
-	bf.Mul(big.NewFloat(sign), bf)
-
-	f, _ := bf.Float64()
-	return Float(f), nil
+	// strconv rounds the decimal text to the nearest double in one step, so that the text the writer produces for
+	// a double reads back as that double. A literal out of range saturates to 0 or Inf (strconv.ErrRange).
+	f, _ := strconv.ParseFloat(s, 64)
+	return Float(sign * f), nil
 }
 
 var (
